@@ -344,9 +344,15 @@ pub struct SchedSpec {
     pub seed: u64,
     /// bit i set = hook site i is a scheduling point in this run (bit 31: stub `y`)
     pub enabled_sites: u32,
+    /// fine-grained mode (needs the SanitizerCoverage build): mean number of instrumented
+    /// control-flow edges of cel-interpreter between two scheduling decisions; 0 = off
+    #[serde(default)]
+    pub fine_gap: u32,
 }
 
 pub const SITE_STUB_Y: u32 = 31;
+/// pseudo-site: an instrumented control-flow edge inside cel-interpreter (fine-grained mode)
+pub const SITE_EDGE: u32 = 30;
 
 #[derive(Clone, Debug, Serialize, Deserialize, PartialEq)]
 pub struct Knobs {
